@@ -652,6 +652,20 @@ impl Node {
         }
         debug!("Payment is valid for record {pretty_key}");
 
+        // the quotes this node issued must have been issued for the very address being stored,
+        // otherwise a payment made for one address could be replayed to store other data
+        let quoted_content = address.as_xorname().unwrap_or_default();
+        if payment
+            .quotes_by_peer(&self_peer_id)
+            .iter()
+            .any(|quote| quote.content != quoted_content)
+        {
+            warn!("Payment quote is for a different address than record {pretty_key}");
+            return Err(Error::InvalidRequest(format!(
+                "Payment quote is for a different address than record {pretty_key}"
+            )));
+        }
+
         // verify quote expiration
         if payment.has_expired() {
             warn!("Payment quote has expired for record {pretty_key}");
